@@ -152,13 +152,15 @@ def r2_guards(F, res):
         oneshot = any(e[0] == "set" and e[2] == ("const", 0) and g.local_ty(g.local_of_var(e[1]) or 0) == "bool" for e in p.events) or \
             any(tm[0] == "discr" and is_call_t(tm[1], "Iterator>::next") and ("array::iter::IntoIter" in tm[1][1] or "ops::range::Range" in tm[1][1])
                 for tm, _v in p.cond)
-        if not (prog and oneshot):
+        # (progress needs the non-empty layout only: since the D31 repair the GLR fetch retries after layout as LR does, and
+        # the one-shot flag is no longer something to insist on)
+        if not prog:
             ok = False
             res.violation(rid, "glr-find-lookaheads/progress", "GlrParser::find_lookaheads can retry without progress "
                           "(layout.len() > 0: %s, one-shot flag cleared: %s)" % (prog, oneshot), g.loc())
             break
     if ok:
-        res.ok(rid, "glr-find-lookaheads/progress", g.loc(), "%d retry path(s), len > 0 and one-shot flag" % len(back))
+        res.ok(rid, "glr-find-lookaheads/progress", g.loc(), "%d retry path(s), each under layout.len() > 0" % len(back))
     # (e) layout parser construction constants
     for nm, rx in (("lr", r"^<rustemo::lr::parser::LRParser<.*> as rustemo::parser::Parser<.*>>::parse_with_context"),
                    ("glr", r"^<rustemo::glr::parser::GlrParser<.*> as rustemo::parser::Parser<.*>>::parse_with_context")):
@@ -180,6 +182,20 @@ def r2_guards(F, res):
                                       "the layout parser is built with partial_parse = %s, has_layout = %s (must be true, false: "
                                       "has_layout = true recurses without bound, partial_parse = false rejects layout followed "
                                       "by content)" % (fmt(pp), fmt(hl)), where)
+                    # built for THIS parse: its SliceBuilder holds the input; the only condition on the construction is
+                    # `has_layout` (a parser object is used for many inputs)
+                    extra = []
+                    for db in h.dominators().get(b, ()):
+                        tmd = h.blocks[db]["term"]
+                        if tmd["k"] == "switch" and not mir.is_log(tmd) and db != b:
+                            ct = tb.operand(tmd["op"])
+                            if not mir.has_field(ct, "has_layout"):
+                                extra.append(fmt(ct)[:80])
+                    if extra:
+                        res.violation(rid, "%s/layout-parser-per-parse" % nm, "the layout parser is built only under %s: a parser object "
+                                      "that is used again keeps a layout parser (and its SliceBuilder) made for an earlier input" % extra[0], where)
+                    else:
+                        res.ok(rid, "%s/layout-parser-per-parse" % nm, where, "built on every parse with a layout")
                     st = args[1]
                     if not mir.has_call(st, "default_layout"):
                         res.violation(rid, "%s/layout-parser-state" % nm, "the layout parser does not start in State::default_layout()", where)
